@@ -735,6 +735,10 @@ func (r RepData) sampleDur() uint32 {
 	if r.DefaultSampleDuration != 0 {
 		return r.DefaultSampleDuration
 	}
+	if r.ConstantSampleDuration != nil && *r.ConstantSampleDuration != 0 {
+		// e.g. 44.1 kHz AAC without a default duration in its tfhd boxes: what the segments say
+		return *r.ConstantSampleDuration
+	}
 	switch {
 	case strings.HasPrefix(r.Codecs, "mp4a.40") && r.MediaTimescale == 48000:
 		return 1024
